@@ -46,6 +46,7 @@ Step(t, e) ==
          IN IF t.none = {} /\ Cardinality({x.c : x \in t.leases}) = t.nc THEN t2
             ELSE Viol(t2, e, "a client did not obtain a lease although the pool was large enough and no frame was lost")
     [] e.ev = "panic" -> Viol(t0, e, "panic: " \o e.msg \o " at " \o e.loc)
+    [] e.ev = "hang" -> Viol(t0, e, "the scenario never ended: the code under test kept producing events without bound or stopped making progress (" \o e.why \o ")")
     [] OTHER -> t0
 Init == l = 1 /\ s = Init0
 Next == l <= Len(Rec) /\ s' = Step(s, Rec[l]) /\ l' = l + 1
